@@ -1,13 +1,24 @@
 (* GoLite: executable semantics of the statement-level translation that go/gen emits as
    [Generated.golite_funcs] (syntax: Model/GenTypes.v).  Definitions only. *)
 From FMP Require Import Model.GenTypes.
+From FMP Require Model.Remote.
 From Coq Require Import Bool Ascii.
 Open Scope string_scope.
 
-Inductive val := VInt (z : Z) | VBool (b : bool) | VStr (s : list N) | VList (l : list val) | VUnit.
+Inductive val := VInt (z : Z) | VBool (b : bool) | VStr (s : list N) | VList (l : list val) | VUnit
+| VNil                              (* nil pointer / nil interface / nil error *)
+| VPtr                              (* some non-nil pointer (its target's fields are heap entries) *)
+| VErr (s : string)                 (* errors.New(s) *)
+| VOpaque (s : string)              (* result of the opaque pure call with source text s *)
+| VExt (k : nat)                    (* oracle: whatever the k-th recorded external call returned *)
+| VRec (l : list (string * val))    (* a struct value / a fresh object: field name, value *)
+| VTuple (l : list val).            (* the values of a multi-value return *)
+
+(* an external call that was made: callee text, evaluated arguments *)
+Definition event := (string * list val)%type.
 
 (* why a run panicked *)
-Inductive why := PIndex | PType | PUnknownVar | PNegative | PMutex | PNoFunc | PUnsupported.
+Inductive why := PIndex | PType | PUnknownVar | PNegative | PMutex | PNoFunc | PUnsupported | PNil | PArity.
 
 Definition store := list (string * val).
 
@@ -18,9 +29,10 @@ Fixpoint upd (x : string) (v : val) (l : store) : store :=
   end.
 
 (* heap: the receiver's fields ("r.toIterate"); locals: the current frame; drawn: rand.Perm calls so far;
-   acq/rel: Lock/Unlock executed so far; held: mutexes now held; defers: pending deferred unlocks of the frame *)
+   acq/rel: Lock/Unlock executed so far; held: mutexes now held; defers: pending deferred unlocks of the frame;
+   effects: the external calls made so far, oldest first *)
 Record state := mkState { heap : store; locals : store; drawn : nat; acq : nat; rel : nat;
-                          held : list string; defers : list string }.
+                          held : list string; defers : list string; effects : list event }.
 
 Fixpoint is_field (s : string) : bool :=
   match s with
@@ -33,8 +45,8 @@ Definition get_var (x : string) (st : state) : option val :=
 
 Definition set_var (x : string) (v : val) (st : state) : state :=
   if is_field x
-  then mkState (upd x v (heap st)) (locals st) (drawn st) (acq st) (rel st) (held st) (defers st)
-  else mkState (heap st) (upd x v (locals st)) (drawn st) (acq st) (rel st) (held st) (defers st).
+  then mkState (upd x v (heap st)) (locals st) (drawn st) (acq st) (rel st) (held st) (defers st) (effects st)
+  else mkState (heap st) (upd x v (locals st)) (drawn st) (acq st) (rel st) (held st) (defers st) (effects st).
 
 (* two's complement wrap-around at w bits *)
 Definition wrap (w z : Z) : Z := ((z + 2 ^ (w - 1)) mod 2 ^ w - 2 ^ (w - 1))%Z.
@@ -69,6 +81,35 @@ Definition binop_eval (o : binop) (a b : val) : option val :=
   | OSub => int_op (fun x y => VInt (wrap 64 (x - y))) a b
   end.
 
+(* ---- interpreted primitives: package strings on the ASCII zone, one-byte separators (Model/Remote.v) ---- *)
+Fixpoint strs (l : list val) : option (list (list N)) :=
+  match l with
+  | [] => Some []
+  | VStr s :: r => match strs r with Some ss => Some (s :: ss) | None => None end
+  | _ => None
+  end.
+
+Definition prim_eval (p : string) (args : list val) : option val :=
+  if String.eqb p "strings.ToLower" then
+    match args with [VStr s] => Some (VStr (map Remote.lower_b s)) | _ => None end
+  else if String.eqb p "strings.TrimSpace" then
+    match args with [VStr s] => Some (VStr (Remote.trim s)) | _ => None end
+  else if String.eqb p "strings.Split" then
+    match args with [VStr s; VStr [sep]] => Some (VList (map VStr (Remote.split sep s))) | _ => None end
+  else if String.eqb p "strings.Join" then
+    match args with
+    | [VList l; VStr [sep]] => match strs l with Some ss => Some (VStr (Remote.join sep ss)) | None => None end
+    | _ => None
+    end
+  else None.
+
+(* the fields of a fresh object written under the callee's receiver name *)
+Fixpoint install (recv : string) (fs : list (string * val)) (h : store) : store :=
+  match fs with
+  | [] => h
+  | (f, v) :: r => install recv r (upd (recv ++ "." ++ f) v h)
+  end.
+
 Inductive eres := EV (v : val) (st : state) | EP (w : why).
 
 Inductive result :=
@@ -88,13 +129,13 @@ Fixpoint remove_s (x : string) (l : list string) : list string :=
    Both are reported as PMutex. *)
 Definition do_lock (m : string) (st : state) : option state :=
   if mem_s m (held st) then None
-  else Some (mkState (heap st) (locals st) (drawn st) (S (acq st)) (rel st) (m :: held st) (defers st)).
+  else Some (mkState (heap st) (locals st) (drawn st) (S (acq st)) (rel st) (m :: held st) (defers st) (effects st)).
 Definition do_unlock (m : string) (st : state) : option state :=
   if mem_s m (held st)
-  then Some (mkState (heap st) (locals st) (drawn st) (acq st) (S (rel st)) (remove_s m (held st)) (defers st))
+  then Some (mkState (heap st) (locals st) (drawn st) (acq st) (S (rel st)) (remove_s m (held st)) (defers st) (effects st))
   else None.
 Definition push_defer (m : string) (st : state) : state :=
-  mkState (heap st) (locals st) (drawn st) (acq st) (rel st) (held st) (m :: defers st).
+  mkState (heap st) (locals st) (drawn st) (acq st) (rel st) (held st) (m :: defers st) (effects st).
 
 Fixpoint run_defers (ds : list string) (st : state) : option state :=
   match ds with
@@ -103,11 +144,32 @@ Fixpoint run_defers (ds : list string) (st : state) : option state :=
   end.
 
 (* a call gets a fresh frame; on exit its deferred unlocks run (last in, first out) and the caller's frame is back *)
-Definition enter (st : state) : state :=
-  mkState (heap st) [] (drawn st) (acq st) (rel st) (held st) [].
+Definition enter (L : store) (st : state) : state :=
+  mkState (heap st) L (drawn st) (acq st) (rel st) (held st) [] (effects st).
+Definition with_heap (h : store) (st : state) : state :=
+  mkState h (locals st) (drawn st) (acq st) (rel st) (held st) (defers st) (effects st).
+Definition add_effect (e : event) (st : state) : state :=
+  mkState (heap st) (locals st) (drawn st) (acq st) (rel st) (held st) (defers st) (effects st ++ [e]).
+(* parameters bound to argument values, in order *)
+Fixpoint bind (ps : list string) (vs : list val) : option store :=
+  match ps, vs with
+  | [], [] => Some []
+  | p :: ps', v :: vs' => match bind ps' vs' with Some L => Some ((p, v) :: L) | None => None end
+  | _, _ => None
+  end.
+(* the fields fs of the struct at heap place x *)
+Fixpoint read_fields (x : string) (fs : list string) (h : store) : option (list (string * val)) :=
+  match fs with
+  | [] => Some []
+  | f :: r =>
+      match lookup (x ++ "." ++ f) h, read_fields x r h with
+      | Some v, Some l => Some ((f, v) :: l)
+      | _, _ => None
+      end
+  end.
 Definition leave (caller st : state) : option state :=
   match run_defers (defers st) st with
-  | Some s => Some (mkState (heap s) (locals caller) (drawn s) (acq s) (rel s) (held s) (defers caller))
+  | Some s => Some (mkState (heap s) (locals caller) (drawn s) (acq s) (rel s) (held s) (defers caller) (effects s))
   | None => None
   end.
 
@@ -116,7 +178,7 @@ Section Sem.
   Variable permI : nat -> nat -> list nat.
 
   Definition bump (st : state) : state :=
-    mkState (heap st) (locals st) (S (drawn st)) (acq st) (rel st) (held st) (defers st).
+    mkState (heap st) (locals st) (S (drawn st)) (acq st) (rel st) (held st) (defers st) (effects st).
 
   Fixpoint eval (e : expr) (st : state) : eres :=
     match e with
@@ -212,7 +274,68 @@ Section Sem.
         | EV _ _ => EP PType
         | EP w => EP w
         end
+    | EBool b => EV (VBool b) st
+    | ENil => EV VNil st
+    | ENot a =>
+        match eval a st with
+        | EV (VBool b) s1 => EV (VBool (negb b)) s1
+        | EV _ _ => EP PType
+        | EP w => EP w
+        end
+    | EIsNil x =>
+        match lookup x (heap st) with
+        | Some VNil => EV (VBool true) st
+        | Some _ => EV (VBool false) st
+        | None => EP PUnknownVar
+        end
+    | EDeref x fs =>
+        match lookup x (heap st) with
+        | Some VNil => EP PNil
+        | Some _ => match read_fields x fs (heap st) with Some l => EV (VRec l) st | None => EP PUnknownVar end
+        | None => EP PUnknownVar
+        end
+    | EErr s => EV (VErr s) st
+    | EOpaque s => EV (VOpaque s) st
+    | EExtern f args =>
+        (fix go (l : list expr) (acc : list val) (st : state) {struct l} : eres :=
+           match l with
+           | [] => EV (VExt (length (effects st))) (add_effect (f, rev acc) st)
+           | a :: r => match eval a st with EV v s1 => go r (v :: acc) s1 | EP w => EP w end
+           end) args [] st
+    | EStr s => EV (VStr s) st
+    | EPrim p args =>
+        (fix go (l : list expr) (acc : list val) (st : state) {struct l} : eres :=
+           match l with
+           | [] => match prim_eval p (rev acc) with Some v => EV v st | None => EP PType end
+           | a :: r => match eval a st with EV v s1 => go r (v :: acc) s1 | EP w => EP w end
+           end) args [] st
+    | ETuple l0 =>
+        (fix go (l : list expr) (acc : list val) (st : state) {struct l} : eres :=
+           match l with
+           | [] => EV (VTuple (rev acc)) st
+           | a :: r => match eval a st with EV v s1 => go r (v :: acc) s1 | EP w => EP w end
+           end) l0 [] st
+    | ENew fs =>
+        (fix go (l : list (string * expr)) (acc : list (string * val)) (st : state) {struct l} : eres :=
+           match l with
+           | [] => EV (VRec (rev acc)) st
+           | p :: r =>
+               match p with
+               | (f, a) => match eval a st with EV v s1 => go r ((f, v) :: acc) s1 | EP w => EP w end
+               end
+           end) fs [] st
     | EUnsupported _ => EP PUnsupported
+    end.
+
+  (* arguments of a call, left to right *)
+  Fixpoint eval_list (l : list expr) (st : state) : (list val * state) + why :=
+    match l with
+    | [] => inl ([], st)
+    | a :: r =>
+        match eval a st with
+        | EV v s1 => match eval_list r s1 with inl (vs, s2) => inl (v :: vs, s2) | inr w => inr w end
+        | EP w => inr w
+        end
     end.
 
   Definition opt_result (o : option state) : result :=
@@ -223,14 +346,18 @@ Section Sem.
     Variable rec : list stmt -> state -> result.
     Variable ft : funtable.
 
-    Definition do_call (f : string) (st : state) : result :=
+    Definition do_call (f : string) (args : list val) (st : state) : result :=
       match lookup f ft with
       | None => RPanic PNoFunc
       | Some g =>
-          match rec (gf_body g) (enter st) with
-          | RNormal s => opt_result (leave st s)
-          | RReturn v s => match leave st s with Some s' => RReturn v s' | None => RPanic PMutex end
-          | r => r
+          match bind (gf_params g) args with
+          | None => RPanic PArity
+          | Some L =>
+              match rec (gf_body g) (enter L st) with
+              | RNormal s => opt_result (leave st s)
+              | RReturn v s => match leave st s with Some s' => RReturn v s' | None => RPanic PMutex end
+              | r => r
+              end
           end
       end.
 
@@ -292,7 +419,48 @@ Section Sem.
           end
       | SRet None => RReturn VUnit st
       | SRet (Some e) => match eval e st with EV v s1 => RReturn v s1 | EP w => RPanic w end
-      | SCallM f => match do_call f st with RReturn _ s => RNormal s | r => r end
+      | SAddTo x w e =>
+          match eval e st with
+          | EV (VInt y) s1 =>
+              match get_var x s1 with
+              | Some (VInt z) => RNormal (set_var x (VInt (wrap w (z + y))) s1)
+              | Some _ => RPanic PType
+              | None => RPanic PUnknownVar
+              end
+          | EV _ _ => RPanic PType
+          | EP w' => RPanic w'
+          end
+      | SCallM f args =>
+          match eval_list args st with
+          | inl (vs, s1) => match do_call f vs s1 with RReturn _ s => RNormal s | r => r end
+          | inr w => RPanic w
+          end
+      | SRetCallM f args =>
+          match eval_list args st with
+          | inl (vs, s1) => match do_call f vs s1 with RNormal s => RReturn VUnit s | r => r end
+          | inr w => RPanic w
+          end
+      | SCallOn x f args =>
+          match eval_list args st with
+          | inl (vs, s1) =>
+              match get_var x s1, lookup f ft with
+              | Some (VRec fs), Some g =>
+                  (* a fresh object is not aliased: its fields are copied in under the callee's receiver name and
+                     copied back out when the call is over *)
+                  match do_call f vs (with_heap (install (gf_recv g) fs (heap s1)) s1) with
+                  | RNormal s | RReturn _ s =>
+                      match read_fields (gf_recv g) (map fst fs) (heap s) with
+                      | Some fs' => RNormal (set_var x (VRec fs') s)
+                      | None => RPanic PUnknownVar
+                      end
+                  | r => r
+                  end
+              | Some _, Some _ => RPanic PType
+              | None, _ => RPanic PUnknownVar
+              | _, None => RPanic PNoFunc
+              end
+          | inr w => RPanic w
+          end
       | SLock m => opt_result (do_lock m st)
       | SUnlock m => opt_result (do_unlock m st)
       | SDeferUnlock m => RNormal (push_defer m st)
@@ -319,16 +487,24 @@ Section Sem.
     | S f => exec_block (exec f ft) ft l st
     end.
 
-  (* run one translated function as a call from [st] *)
+  (* run one translated function as a call from [st], with argument values *)
+  Definition run_fun_args (fuel : nat) (ft : funtable) (f : string) (args : list val) (st : state) : result :=
+    do_call (exec fuel ft) ft f args st.
   Definition run_fun (fuel : nat) (ft : funtable) (f : string) (st : state) : result :=
-    do_call (exec fuel ft) ft f st.
+    run_fun_args fuel ft f [] st.
 End Sem.
 
 (* ---- completeness of a translation: no EUnsupported / SUnsupported node anywhere ---- *)
 Fixpoint expr_ok (e : expr) : bool :=
   match e with
-  | EVar _ | EInt _ => true
-  | ELen a | EMake _ a | EPerm a => expr_ok a
+  | EVar _ | EInt _ | EBool _ | ENil | EIsNil _ | EDeref _ _ | EErr _ | EOpaque _ | EStr _ => true
+  | EPrim _ args | ETuple args =>
+      (fix all (l : list expr) : bool := match l with [] => true | a :: r => expr_ok a && all r end) args
+  | ENew fs =>
+      (fix all (l : list (string * expr)) : bool :=
+         match l with [] => true | p :: r => match p with (_, a) => expr_ok a end && all r end) fs
+  | ELen a | EMake _ a | EPerm a | ENot a => expr_ok a
+  | EExtern _ args => (fix all (l : list expr) : bool := match l with [] => true | a :: r => expr_ok a && all r end) args
   | EIndex a b | ESliceFrom a b | EBin _ a b | EAnd a b | EOr a b | EAppend a b => expr_ok a && expr_ok b
   | EUnsupported _ => false
   end.
@@ -345,7 +521,9 @@ Fixpoint stmt_ok (s : stmt) : bool :=
   | SRange _ e b => expr_ok e && blk b
   | SRet None => true
   | SRet (Some e) => expr_ok e
-  | SCallM _ | SLock _ | SUnlock _ | SDeferUnlock _ => true
+  | SAddTo _ _ e => expr_ok e
+  | SCallM _ args | SRetCallM _ args | SCallOn _ _ args => forallb expr_ok args
+  | SLock _ | SUnlock _ | SDeferUnlock _ => true
   | SUnsupported _ => false
   end.
 
